@@ -26,6 +26,17 @@ impl Element {
     };
 }
 
+#[cfg(decaf377_verif)]
+impl Element {
+    /// Verification hook: an `Element` from arbitrary affine coordinates, with no check at all
+    /// (used to offer off-curve / out-of-group coordinates to witness allocation).
+    pub fn from_affine_unchecked(x: Fq, y: Fq) -> Element {
+        Element {
+            inner: EdwardsProjective::new_unchecked(x, y, x * y, Fq::ONE),
+        }
+    }
+}
+
 impl Hash for Element {
     fn hash<H: core::hash::Hasher>(&self, state: &mut H) {
         // Equal elements can have different inner curve points; their encoding is canonical.
